@@ -1,6 +1,7 @@
-//! C18/C19 system level: a C-ABI TCP server with the programmable application of Model/FfiServer.v
-//! (`prog_handler`), driven by database operation batches and RAW request frames; the reply bytes are printed.
+//! C18/C19 system level: a C-ABI TCP server with the programmable application of Spec/FfiWireSpec.v
+//! (`prog2_point`; as C callbacks: Model/FfiServer.v `prog2_handler`), driven by database operation batches and RAW request frames; the reply bytes are printed.
 //! input line: space separated groups
+//!   H:null           first group, optional: the application sets NO write callback (all four NULL)
 //!   I:<ops>          ops inside the configure callback (db_ops syntax), at most one, first
 //!   T:<ops>          ops inside one rodbus_server_update_database transaction
 //!   X:<S|N>:<hex>    one MBAP request whose PDU is <hex>, addressed to the case's served unit (S, rendered as
@@ -10,7 +11,10 @@
 //!   finally cb=<number of write-callback invocations>
 //! Write callbacks (all four set): per item address a: a < 100 update the point (success iff present, else
 //!   IllegalDataAddress); 100..109 fail with the (a-100)-th standard exception (9 = Unknown, raw 0); 110..365 fail
-//!   with Unknown and raw code a-110; >= 366 add-or-update, success. Write-multiple stops at the first failure.
+//!   with Unknown and raw code a-110; >= 366 add-or-update, success. After an item that succeeded the callback also
+//!   changes the read-only point types, by a mod 4: 1 add-or-update discrete input a := (v != 0); 2 add-or-update
+//!   input register a := v; 3 delete discrete input a and input register a; 0 nothing.
+//!   Write-multiple stops at the first failure (earlier items stay).
 use super::p5_common::*;
 use std::io::{Read, Write};
 use std::os::raw::c_void;
@@ -46,6 +50,24 @@ fn ok() -> ffi::WriteResult {
     write_result(true, ffi::ModbusException::Unknown, 0)
 }
 
+unsafe fn mirror(db: *mut rodbus_ffi::Database, i: u16, v: u16) {
+    match i % 4 {
+        1 => {
+            ffi::rodbus_database_add_discrete_input(db, i, v != 0);
+            ffi::rodbus_database_update_discrete_input(db, i, v != 0);
+        }
+        2 => {
+            ffi::rodbus_database_add_input_register(db, i, v);
+            ffi::rodbus_database_update_input_register(db, i, v);
+        }
+        3 => {
+            ffi::rodbus_database_delete_discrete_input(db, i);
+            ffi::rodbus_database_delete_input_register(db, i);
+        }
+        _ => {}
+    }
+}
+
 unsafe fn prog_point(db: *mut rodbus_ffi::Database, coil: bool, i: u16, v: u16) -> ffi::WriteResult {
     if i < 100 {
         let present = if coil {
@@ -54,6 +76,7 @@ unsafe fn prog_point(db: *mut rodbus_ffi::Database, coil: bool, i: u16, v: u16) 
             ffi::rodbus_database_update_holding_register(db, i, v)
         };
         if present {
+            mirror(db, i, v);
             ok()
         } else {
             write_result(false, ffi::ModbusException::IllegalDataAddress, 0)
@@ -70,6 +93,7 @@ unsafe fn prog_point(db: *mut rodbus_ffi::Database, coil: bool, i: u16, v: u16) 
             ffi::rodbus_database_add_holding_register(db, i, v);
             ffi::rodbus_database_update_holding_register(db, i, v);
         }
+        mirror(db, i, v);
         ok()
     }
 }
@@ -246,18 +270,19 @@ fn batch(ffi_rt: &FfiRuntime, lines: &[String]) -> Vec<String> {
         unsafe {
             let map = ffi::rodbus_device_map_create();
             for (k, line) in lines.iter().enumerate() {
-                let init_ops = match line.split_whitespace().next() {
-                    Some(g) if g.starts_with("I:") => g[2..].to_string(),
-                    _ => String::new(),
+                let init_ops = match line.split_whitespace().find(|g| g.starts_with("I:")) {
+                    Some(g) => g[2..].to_string(),
+                    None => String::new(),
                 };
+                let null = line.split_whitespace().any(|g| g == "H:null");
                 let (state, cb) = batch_callback(&init_ops);
                 let (app, actx) = leak_ctx(App::default());
                 apps.push(app);
                 let handler = ffi::WriteHandler {
-                    write_single_coil: Some(w_coil),
-                    write_single_register: Some(w_reg),
-                    write_multiple_coils: Some(w_coils),
-                    write_multiple_registers: Some(w_regs),
+                    write_single_coil: if null { None } else { Some(w_coil) },
+                    write_single_register: if null { None } else { Some(w_reg) },
+                    write_multiple_coils: if null { None } else { Some(w_coils) },
+                    write_multiple_registers: if null { None } else { Some(w_regs) },
                     on_destroy: Some(noop_destroy),
                     ctx: actx,
                 };
@@ -291,7 +316,7 @@ fn batch(ffi_rt: &FfiRuntime, lines: &[String]) -> Vec<String> {
                 let unit = (k + 1) as u8;
                 let mut tx: u16 = 1;
                 for g in line.split_whitespace() {
-                    if g.starts_with("I:") {
+                    if g.starts_with("I:") || g.starts_with("H:") {
                         continue;
                     }
                     if let Some(ops) = g.strip_prefix("T:") {
